@@ -1,8 +1,2 @@
-import CnlDriver.CS
-/-! `C02` driver table (stub). -/
-namespace Cnl.Drv
-open Cnl
-
-def checkC02 (_toks : List String) (_res : String) : Option Verdict := none
-
-end Cnl.Drv
+import CnlDriver.C01
+/-! table in CnlDriver.C01 -/
